@@ -5,3 +5,9 @@ type Foo struct {
 	X bool
 	L []int64
 }
+
+// Item also exists in pk1, with one field less.
+type Item struct {
+	N int64
+	M string
+}
